@@ -1,5 +1,6 @@
 import BU.Properties.C06
 import BU.Properties.C06_Gen
+import BU.Properties.C06_GenWrap
 #print axioms C06.normalise_strict_lowS
 #print axioms C06.grind_first_lowR
 #print axioms C06.sign_input_spec
@@ -10,3 +11,7 @@ import BU.Properties.C06_Gen
 #print axioms C06Gen.grind_loop
 #print axioms C06Gen.gen_sign_input
 #print axioms C06Gen.gen_sign_input_spec
+#print axioms C06GenWrap.gen_pk_sign_input
+#print axioms C06GenWrap.gen_pk_sign_segwit_input
+#print axioms C06GenWrap.gen_pk_sign_taproot_input
+#print axioms C06GenWrap.gen_pk_sign_input_spec
